@@ -30,6 +30,16 @@ func (t *Dense) T(axes ...int) (err error) {
 			}
 		}
 
+		// equal shapes are not enough (think of (2,2,2)): the new axes must also undo the previous ones
+		if isReversed && len(t.transposeWith) == len(axes) {
+			for i, a := range axes {
+				if a < 0 || a >= len(t.transposeWith) || t.transposeWith[a] != i {
+					isReversed = false
+					break
+				}
+			}
+		}
+
 		// if it is reversed, well, we just restore the backed up one
 		if isReversed {
 			t.UT()
